@@ -78,3 +78,21 @@ Example C06_header_nonvacuous :
   enc_header_N 16777216 false = [xbb; x01; x00; x00; x00] /\ spec_header_N 16777216 true = [xfb; x01; x00; x00; x00] /\
   enc_header_N 16777215 true = [xfa; xff; xff; xff] /\ enc_header_N 56 false = [xb8; x38] /\ enc_header_N 55 true = [xf7].
 Proof. vm_compute. repeat split; reflexivity. Qed.
+
+(* Tie of the hand-written constants of Rlp/Model.v to the source.  Gen/Consts.v is regenerated on
+   every run by the translator harness/cmd/gen_consts from the `const` declarations of
+   pkg/rlp/decode.go as they are NOW (go/ast + a constant-expression evaluator, e.g.
+   maxInt32 = int64(int32(maxUint32 >> 1))).  The model keeps its own literals; this theorem is what
+   breaks when a prefix byte, the 55-byte threshold or the length bound changes in the source (the
+   correspondence run then supplies the concrete inputs on which model and code differ). *)
+From Coq Require Import ZArith.
+From FFS Require Gen.Consts.
+Theorem C06_source_constants :
+  Gen.Consts.rlp_shortString = Z.of_N Rlp.Model.shortString /\
+  Gen.Consts.rlp_longString = Z.of_N Rlp.Model.longString /\
+  Gen.Consts.rlp_shortList = Z.of_N Rlp.Model.shortList /\
+  Gen.Consts.rlp_longList = Z.of_N Rlp.Model.longList /\
+  Gen.Consts.rlp_shortToLong = Z.of_N Rlp.Model.shortToLong /\
+  Gen.Consts.rlp_maxInt32 = Z.of_N Rlp.Model.maxInt32.
+Proof. vm_compute. repeat split; reflexivity. Qed.
+Print Assumptions C06_source_constants.
